@@ -44,16 +44,22 @@ type verifEncoded struct {
 	typ parser.PacketType
 	nsp string
 	v   any
+	id  *uint64
 }
 
 type verifRecParser struct{ log *[]verifEncoded }
 
 func (p verifRecParser) Encode(h *parser.PacketHeader, v any) ([][]byte, error) {
-	*p.log = append(*p.log, verifEncoded{h.Type, h.Namespace, v})
+	var id *uint64
+	if h.ID != nil {
+		x := *h.ID
+		id = &x
+	}
+	*p.log = append(*p.log, verifEncoded{h.Type, h.Namespace, v, id})
 	return [][]byte{append([]byte{'0' + byte(h.Type)}, h.Namespace...)}, nil
 }
 func (p verifRecParser) Add(data []byte, finish parser.Finish) error { return nil }
-func (p verifRecParser) Reset()                                       {}
+func (p verifRecParser) Reset()                                      {}
 
 // verifServerWorld builds a Server with the given namespaces and one connection, by struct literals (no goroutines,
 // no network): the real stores, namespaces, in-memory adapters and packet queue, recording parser and Engine.IO socket.
@@ -131,7 +137,7 @@ type verifFrameParser struct {
 }
 
 func (p *verifFrameParser) Encode(h *parser.PacketHeader, v any) ([][]byte, error) {
-	*p.log = append(*p.log, verifEncoded{h.Type, h.Namespace, v})
+	*p.log = append(*p.log, verifEncoded{typ: h.Type, nsp: h.Namespace, v: v})
 	return [][]byte{append([]byte{'0' + byte(h.Type)}, h.Namespace...)}, nil
 }
 
@@ -203,7 +209,6 @@ func verifArgDecode(types ...reflect.Type) ([]reflect.Value, error) {
 	return out, nil
 }
 
-
 func verifHandlerA(string) {}
 func verifHandlerB(int)    {}
 func verifHandlerC()       {}
@@ -230,7 +235,6 @@ func verifCountEH(xs []*eventHandler, k int) int {
 	return n
 }
 
-
 // verifReplyDecode is the `decode` closure of an ACK packet carrying one string argument.
 func verifReplyDecode(val string) parser.Decode {
 	return func(types ...reflect.Type) ([]reflect.Value, error) {
@@ -252,7 +256,6 @@ func verifServerSock() *serverSocket {
 	}
 }
 
-
 func verifClientSock() *clientSocket {
 	return &clientSocket{
 		state:  clientSocketConnStateDisconnected,
@@ -261,7 +264,6 @@ func verifClientSock() *clientSocket {
 		debug:  newNoopDebugger(),
 	}
 }
-
 
 // ---- frame-preserving codec stand-in for pipeline harnesses (JSON / reflect are C09's subject, outside C01's kernel) ----
 
